@@ -3,10 +3,13 @@ C15 — Constraint text round-trips; range operators and bumps are monotone.
 Property theorems only (helper lemmas in Proofs/VRangeBump.lean, Proofs/VRangeOps.lean).
 
 Bumps and the `^`, `~`, `~=` operators are proved for every well-formed version (any number of release
-components, epochs, pre/post/dev/local segments).  The text round trip is proved at *token level*: the
-printer's output is shown to be the concatenation `op ++ text` of clause tokens, and the parser's semantic
-action on those tokens is shown to give back the same set; that the regex tokeniser maps the text to those
-tokens is a correspondence obligation (parse stream of the check), not a theorem.
+components, epochs, pre/post/dev/local segments).  The text round trip is proved at *string level*: the printed
+text is taken through the whole of `parse_constraint` (strip, `||` split, and-separator, the regex cascade of
+`parse_single_constraint` as modelled by the hand tokeniser, `Version.parse`, `intersect`, `VersionUnion.of`) —
+single versions, plain ranges, `*`, `||` joins, `!=V`, and the wildcard spellings of the constraints the parser
+builds; the hypothesis on the bounds' texts (`TextOK`) is proved for normal-form texts and for parsed texts.  The
+older token-level theorems are kept.  That Python's `re` agrees with the hand tokeniser remains a correspondence
+obligation (parse stream of the check).
 -/
 import PoetryVerif.Proofs.VRangeBump
 import PoetryVerif.Proofs.VRangePred
@@ -15,6 +18,7 @@ import PoetryVerif.Model.VPrint
 import PoetryVerif.Proofs.VRangeTextU
 import PoetryVerif.Proofs.VRangeTextV
 import PoetryVerif.Proofs.VRangeTextW
+import PoetryVerif.Proofs.VRangeTextP
 
 set_option linter.unusedSimpArgs false
 set_option linter.unusedVariables false
@@ -285,6 +289,19 @@ the local label's segments are as the parser stores them — lower-case letters 
 without leading zeros).  In particular every bound built by a bump function (`Version.mk'`). -/
 theorem normal_text_ok (v : Version) (hwf : v.wf = true) (hn : NormalText v) (hl : LocOK v.loc) : TextOK v :=
   textOK_of_normal v hwf hn hl
+
+/-- **every version `Version.parse` returns from a digit-headed run of version characters (letters, digits,
+`. - _ + !`) not ending in `-` carries a re-parsable text**, whatever the spelling (`1.0-1`, `1.0RC1`, `1.0.post`):
+the text is kept as written, and what `VERSION_PATTERN` leaves unconsumed is made of characters of the input -/
+theorem parsed_text_ok (s : String) (v : Version) (h : Version.parse s = .ok v)
+    (hc : ∀ c ∈ s.toList, vchar c = true) (hh : ∃ d ds, s.toList = d :: ds ∧ isDigit d = true)
+    (hl : ∃ pre d, s.toList = pre ++ [d] ∧ d ≠ '-') : TextOK v :=
+  textOK_of_parse s v h hc hh hl
+
+example : ∃ v, Version.parse "1.0-1" = .ok v ∧ v.text = "1.0-1" ∧ v.post = some ⟨.post, 1⟩ ∧
+    (∀ c ∈ "1.0-1".toList, vchar c = true) ∧ (∃ d ds, "1.0-1".toList = d :: ds ∧ isDigit d = true) ∧
+    (∃ pre d, "1.0-1".toList = pre ++ [d] ∧ d ≠ '-') :=
+  ⟨_, rfl, rfl, rfl, by decide, ⟨'1', _, rfl, by decide⟩, ⟨['1', '.', '0', '-'], '1', rfl, by decide⟩⟩
 
 /-- **`Version.parse(v.to_string())` gives `v` back** (with the normal-form text as its text), an equal version —
 the string-level form of C03's re-parse obligation -/
